@@ -14,7 +14,7 @@ CONSTANTS
   MaxFlips = 0
   FixNotify = TRUE
   FixTimer = TRUE
-  FixSetHead = FALSE
+  FixSetHead = TRUE
   Slack = 250
 SPECIFICATION TraceSpec
 POSTCONDITION Report
